@@ -143,8 +143,12 @@ class Prop(BaseProp):
         if rng.random() < 0.25:
             return self.case_opwords(rng)
         table = gen.gen_table(rng, allow_op=False)
-        table = [[k, [a for a in al if '(' not in a and ')' not in a and not set(a.lower().split()) & {'and', 'or', 'with'}], ex]
+        # aliases with parentheses inside are names like any other ('GNU GPL (v2)'); only an alias that is one word wrapped in
+        # parentheses is left out (the grammar writes a parenthesised operand the same way)
+        table = [[k, [a for a in al if not (a.strip().startswith('(') and a.strip().endswith(')')) and not set(a.lower().split()) & {'and', 'or', 'with'}], ex]
                  for k, al, ex in table]
+        if not gen.valid_table(table):
+            table = [[k, [a for a in al if '(' not in a and ')' not in a], ex] for k, al, ex in table]
         # atoms: (text variant, canonical atom)
         choices = []
         for k, al, ex in table:
